@@ -271,6 +271,19 @@ func scenarios() []scenario {
 			},
 		}, func() string { return digest(&s) }
 	}})
+	out = append(out, scenario{"MM: 2 x Marshal of one Schema whose PropertyOrder slice has spare capacity and leaves three properties unlisted", func() ([]func() string, func() string) {
+		order := make([]string, 0, 8)
+		order = append(order, "m", "zz")
+		sub := make([]string, 0, 4)
+		sub = append(sub, "q")
+		s := &jsonschema.Schema{Type: "object", PropertyOrder: order, Properties: map[string]*jsonschema.Schema{
+			"m": {Type: "integer"}, "c": {Type: "string"}, "a": {}, "b": {Properties: map[string]*jsonschema.Schema{"q": {}, "p": {}, "o": {}}, PropertyOrder: sub}}}
+		body := func() string { b, err := json.Marshal(s); return fmt.Sprint(string(b), err) }
+		return []func() string{body, body}, func() string {
+			// the whole backing arrays, beyond len
+			return digest(s) + fmt.Sprint(order[:cap(order)], sub[:cap(sub)])
+		}
+	}})
 	out = append(out, scenario{"CC: 2 x CloneSchemas of one tree; each clone must be complete and share no Schema object with the original", func() ([]func() string, func() string) {
 		s := cachedSchema(`{"properties":{"b":{"items":{"not":{"type":"integer"}},"allOf":[{"required":["z"]},{"anyOf":[{"minimum":1},{"const":2}]}]},"a":{"$ref":"#/$defs/d"}},"$defs":{"d":{"enum":[3,1,2],"if":{"type":"array"},"then":{"prefixItems":[{},{"contains":{}}]}}},"dependentSchemas":{"k":{"propertyNames":{"maxLength":3}}}}`)
 		orig := map[*jsonschema.Schema]bool{}
